@@ -126,7 +126,14 @@ theorem eval_pure_no_exit (xc : X.Ctx) : ∀ (fuel : Nat) (e : X.Expr) (σ : X.S
       | bool b => simp at h
       | name n => simp only at h; unfold liftE at h; split at h <;> simp at h
       | str bs => simp [pureE] at hp
-      | sub n i => simp [pureE] at hp
+      | sub n i =>
+        simp only [pureE] at hp
+        simp only at h
+        unfold Res.bind at h
+        cases hr : asInt "subscript" (X.eval fuel xc i st) with
+        | ok w s => rw [hr] at h; simp only at h; unfold liftE at h; split at h <;> simp at h
+        | exit c s => exact hA _ i st c s hp hr
+        | undef w => rw [hr] at h; simp at h
       | call f args => simp [pureE] at hp
       | syscall id args => simp [pureE] at hp
       | un op a =>
@@ -283,6 +290,23 @@ theorem readName_write_other (xc : X.Ctx) (σ σ' : X.St) (n m : String) (w : Wo
     simp only [lookup_setAssoc, if_neg hne]
   · unfold X.readName
     simp only [lookup_setAssoc, if_neg hne]
+
+theorem readName_write_noarr (xc : X.Ctx) (σ σ' : X.St) (n : String) (w : Word) (r : ArrRef)
+    (h : X.writeName xc σ n w = .ok σ') : X.readName xc σ' n ≠ .ok (.arr r) := by
+  intro hr
+  rcases writeName_cases xc σ σ' n w h with ⟨o, hl, rfl⟩ | ⟨hl, hg, rfl⟩
+  · unfold X.readName at hr
+    simp only [lookup_setAssoc, if_true, hl, Option.map_some] at hr
+    simp at hr
+  · unfold X.readName at hr
+    simp only [hl, hg, lookup_setAssoc, if_true] at hr
+    cases hgv : σ.gvars.lookup n with
+    | none => rw [hgv] at hr; simp at hr
+    | some x => rw [hgv] at hr; simp at hr
+
+theorem writeName_arrays (xc : X.Ctx) (σ σ' : X.St) (n : String) (w : Word) (h : X.writeName xc σ n w = .ok σ') :
+    σ'.arrays = σ.arrays := by
+  rcases writeName_cases xc σ σ' n w h with ⟨o, hl, rfl⟩ | ⟨hl, hg, rfl⟩ <;> rfl
 
 theorem writeName_io (xc : X.Ctx) (σ σ' : X.St) (n : String) (w : Word) (h : X.writeName xc σ n w = .ok σ') :
     σ'.io = σ.io := by
